@@ -74,6 +74,19 @@ func c06QE(mode eng.Mode, x0, x1 *big.Int) (string, string) {
 	return "", ""
 }
 
+// c06QECarry: RangeCheckQE(y0, y1) with both limb hints answered by the limbs of (c0, c1); true = accepted.
+func c06QECarry(mode eng.Mode, y0, y1, c0, c1 *big.Int) bool {
+	split := func(c *big.Int) eng.Subst {
+		return eng.Subst{Strategy: "set", Vals: []*big.Int{new(big.Int).Rsh(c, 32), new(big.Int).And(c, big.NewInt(0xffffffff))}}
+	}
+	fn := func(api frontend.API, in []frontend.Variable) []frontend.Variable {
+		gl.New(api).RangeCheckQE(gl.QuadraticExtensionVariable{glv(in[0]), glv(in[1])})
+		return nil
+	}
+	res, _ := gad.Run(eng.Options{Mode: mode, Plan: eng.Plan{0: split(c0), 1: split(c1)}}, []*big.Int{y0, y1}, fn)
+	return res.Outcome == eng.Accept
+}
+
 type c06Config struct {
 	Mode  eng.Mode
 	Force bool
@@ -445,6 +458,14 @@ func TestC06(t *testing.T) {
 
 	var rp c06Replay
 	if is, err := rec.LoadReplay(&rp); is {
+		if err == nil && rp.Backend == "qe-carry" {
+			r.Case("replay", true, fmt.Sprint(rp), func() any { return rp })
+			if c06QECarry(eng.Mode(rp.Mode), bs(rp.V), bs(rp.SubstV), bs(rp.SubstK), bs(rp.Config)) {
+				r.Fail(t, "C06/qe-cross-coordinate", rp, "RangeCheckQE(%s, %s) accepted with the limbs of (%s, %s)", rp.V, rp.SubstV, rp.SubstK, rp.Config)
+			}
+			r.Done()
+			return
+		}
 		if err == nil && rp.Backend == "qe" {
 			k, d := c06QE(eng.Mode(rp.Mode), bs(rp.V), bs(rp.SubstV))
 			r.Case("replay", true, fmt.Sprint(rp), func() any { return rp })
@@ -552,6 +573,22 @@ func TestC06(t *testing.T) {
 		}
 		x0, x1 := pick("x0"), pick("x1")
 		m := genMode().Draw(rt, "mode")
+		if rapid.IntRange(0, 4).Draw(rt, "carry") == 0 {
+			// a pair that is congruent to a canonical pair (c0, c1) under the packing c0 + 2^64*c1, offered together
+			// with the limbs of (c0, c1): an aggregate recomposition check would accept it
+			c0, c1 := bu(genGL().Draw(rt, "c0")), bu(genGL().Draw(rt, "c1"))
+			k := big.NewInt(int64(rapid.IntRange(1, 1<<20).Draw(rt, "k")))
+			y0 := new(big.Int).Sub(c0, new(big.Int).Lsh(k, 64))
+			y0.Mod(y0, bigR)
+			y1 := new(big.Int).Add(c1, k)
+
+			r.Case("eng-qe/"+m.String()+"/cross-coordinate-carry", true, fmt.Sprint("qecarry", m, y0, y1), func() any {
+				return map[string]any{"gadget": "RangeCheckQE", "x0": y0.String(), "x1": y1.String(), "limbs_of": []string{c0.String(), c1.String()}}
+			})
+			if c06QECarry(m, y0, y1, c0, c1) {
+				r.Fail(rt, "C06/qe-cross-coordinate", c06Replay{Backend: "qe-carry", Mode: int(m), V: y0.String(), SubstV: y1.String(), SubstK: c0.String(), Config: c1.String()}, "RangeCheckQE(%s, %s) under %s is ACCEPTED when the limb hints answer with the limbs of (%s, %s): the two coordinates are not bound separately", y0, y1, m, c0, c1)
+			}
+		}
 		r.Case("eng-qe/"+m.String(), nearBoundary(x0, 0) || nearBoundary(x1, 0), fmt.Sprint("qe", m, x0, x1), func() any {
 			return map[string]any{"gadget": "RangeCheckQE", "mode": m.String(), "x0": x0.String(), "x1": x1.String()}
 		})
